@@ -843,6 +843,35 @@ fail_resp:
   return;
 }
 
+/*
+ * Appendix B.2: the kid context is a CBOR byte string.  Unwrap it, making
+ * sure that the head and the bytes it announces lie inside what was received.
+ *
+ * Return 1 if OK, 0 if malformed.
+ */
+static int
+coap_oscore_unwrap_kid_context(const uint8_t *ptr, size_t length,
+                               coap_bin_const_t *kid_context) {
+  size_t head = 1;
+  size_t size;
+
+  if (length == 0)
+    return 0;
+  if ((ptr[0] & 0x1f) >= 0x18) {
+    if ((ptr[0] & 0x1f) > 0x1b)
+      return 0;
+    head += (size_t)1 << (ptr[0] & 0x03);
+  }
+  if (head > length)
+    return 0;
+  size = oscore_cbor_get_element_size(&ptr, &length);
+  if (size > length)
+    return 0;
+  kid_context->s = ptr;
+  kid_context->length = size;
+  return 1;
+}
+
 /* pdu contains incoming message with encrypted COSE ciphertext payload
  * function returns decrypted message
  * and verifies signature, if present
@@ -1017,16 +1046,15 @@ coap_oscore_decrypt_pdu(coap_session_t *session,
                                       NULL,
                                       session->oscore_r2 != 0 ? (uint8_t *)&session->oscore_r2 : NULL,
                                       &rcp_ctx);
+        coap_bin_const_t kid_context;
+
         ptr = cose->kid_context.s;
         length = cose->kid_context.length;
         if (ptr && osc_ctx && osc_ctx->rfc8613_b_2 &&
-            osc_ctx->mode == OSCORE_MODE_SINGLE) {
+            osc_ctx->mode == OSCORE_MODE_SINGLE &&
+            coap_oscore_unwrap_kid_context(ptr, length, &kid_context)) {
           /* Processing Appendix B.2 protocol */
-          /* Need to CBOR unwrap kid_context */
-          coap_bin_const_t kid_context;
-
-          kid_context.length = oscore_cbor_get_element_size(&ptr, &length);
-          kid_context.s = ptr;
+          /* kid_context has been CBOR unwrapped */
           cose_encrypt0_set_kid_context(cose, (coap_bin_const_t *)&kid_context);
 
           if (session->oscore_r2 != 0) {
@@ -1134,8 +1162,10 @@ coap_oscore_decrypt_pdu(coap_session_t *session,
           /* Need to CBOR unwrap kid_context */
           coap_bin_const_t kid_context;
 
-          kid_context.length = oscore_cbor_get_element_size(&ptr, &length);
-          kid_context.s = ptr;
+          if (!coap_oscore_unwrap_kid_context(ptr, length, &kid_context)) {
+            coap_log_warn("OSCORE: Appendix B.2 kid context is not a CBOR byte string\n");
+            goto error;
+          }
           cose_encrypt0_set_kid_context(cose, &kid_context);
         }
         if (ptr && !coap_binary_equal(osc_ctx->id_context, &cose->kid_context)) {
